@@ -21,7 +21,9 @@ theorem RecvSame.of_SendEq {a b : S} (h : SendEq a b) : RecvSame a b := by
   constructor <;> rw [h]
 
 theorem dropConnection_RecvSame (s : S) (a : Bool) : RecvSame s (dropConnection s a) := by
-  unfold dropConnection; split <;> exact ⟨rfl, rfl⟩
+  unfold dropConnection flushQueue; split
+  · cases a <;> exact ⟨rfl, rfl⟩
+  · exact ⟨rfl, rfl⟩
 
 theorem sendCloseFrame_RecvSame (s : S) (c : Option Nat) (r : Option Bytes) (i : Bool) :
     RecvSame s (sendCloseFrame s c r i) := by
@@ -48,8 +50,8 @@ theorem connectionLost_RecvSame (s : S) : RecvSame s (connectionLost s) := by
   unfold connectionLost
   split
   · exact RecvSame.refl s
-  · unfold reportClose markClosed cancelOnLost
-    split <;> split <;> (try split) <;> exact ⟨rfl, rfl⟩
+  · unfold reportClose unsentUnclean markClosed cancelOnLost
+    split <;> split <;> (try split) <;> (try split) <;> exact ⟨rfl, rfl⟩
 
 theorem sendAutoPing_RecvSame (s : S) : RecvSame s (sendAutoPing s) := by
   unfold sendAutoPing
@@ -238,8 +240,8 @@ theorem connectionLost_cfg (s : S) : (connectionLost s).cfg = s.cfg := by
   unfold connectionLost
   split
   · rfl
-  · unfold reportClose markClosed cancelOnLost
-    split <;> split <;> (try split) <;> rfl
+  · unfold reportClose unsentUnclean markClosed cancelOnLost
+    split <;> split <;> (try split) <;> (try split) <;> rfl
 
 theorem step_cfg' (s : S) (op : Op) : (step s op).cfg = s.cfg := by
   unfold step
